@@ -1,0 +1,30 @@
+//go:build verif
+
+package pocketcore
+
+// Contracts checked by /verif/govc (contract-based deductive verification).
+// Comment-only: with the `verif` tag off this file is not even parsed.
+
+//@ func processSelf
+//@   trusted node-local evidence cleanup and metrics (off-chain state only)
+//@   pure_fn
+
+// A proof message pays out only after ValidateProof succeeded for it: a claim of the signer
+// exists for the leaf's session, the leaf index is the pseudorandom one required for that claim,
+// the Merkle proof verified against the claimed root. The payment is for exactly the claimed
+// number of relays, at most once, and the claim is deleted with it. A detected replay pays
+// nothing and burns from the offender.
+//@ func handleProofMsg
+//@   props C32,C30
+//@   modifies all
+//@   ensures [reward-only-after-valid-proof] awardN != old(awardN) ==> old(claimHasG[claimKeyOf(leafSigner(proof.Leaf), leafHeader(proof.Leaf), proof.EvidenceType)]) && mvN == old(mvN) + 1 && mvOK && mvLeaf == proof.Leaf && mvIndex == proof.MerkleProof.TargetIndex && priN == old(priN) + 1 && priOK && priIndex == proof.MerkleProof.TargetIndex
+//@   ensures [at-most-one-reward] awardN == old(awardN) || awardN == old(awardN) + 1
+//@   ensures [relay-reward-deletes-claim] awardN != old(awardN) && isdyn(proof.Leaf, x/pocketcore/types.RelayProof) && result.Code == 0 ==> claimDelN == old(claimDelN) + 1 && lastDelClaim == claimKeyOf(leafSigner(proof.Leaf), leafHeader(proof.Leaf), 1)
+//@   ensures [replay-pays-nothing] chalBurnN != old(chalBurnN) && isdyn(proof.Leaf, x/pocketcore/types.RelayProof) ==> awardN == old(awardN)
+
+// A claim message is stored only after ValidateClaim accepted it (in particular: before the
+// entropy for its proof leaf is known), under the key of exactly that claim
+//@ func handleClaimMsg
+//@   props C32,C31
+//@   modifies all
+//@   ensures [accepted-means-valid-and-stored] result.Code == 0 ==> msg.EvidenceType != 0 && ctxHeight(ctx) <= pcWindow(ctx) * pcBPS(ctx) + msg.SessionHeader.SessionBlockHeight && lastSetClaim == claimKeyOf(bytes(msg.FromAddress), msg.SessionHeader, msg.EvidenceType)
